@@ -416,7 +416,7 @@ fn lp_walk(l: &Lp, n: &mut u64, m: &mut u64, t: &mut String, k: &mut std::collec
 }
 
 fn long_nests(tier: Tier) -> Vec<(String, Vec<Lp>)> {
-    let counts: Vec<usize> = tier.pick(vec![0, 1, 40, 70, 300], vec![0, 1, 40, 70, 300, 1000, 5000]);
+    let counts: Vec<usize> = crate::util::with_thresholds_usize(tier.pick(vec![0, 1, 40, 70, 300], vec![0, 1, 40, 70, 300, 1000, 5000]), tier.pick(256, 4096));
     let mut out = vec![];
     let mk = |kind: u8, id: u32, n: usize, leaf: u8, inner: Vec<Lp>| if kind == 0 { Lp::W(id, n, leaf, inner) } else { Lp::F(id, n, leaf, inner) };
     for &n in &counts {
